@@ -12,6 +12,7 @@ import ModVerif.Model.Modfile.Work
 import ModVerif.Proofs.ModfilePrint
 import ModVerif.Proofs.ModfileFmtConserve
 import ModVerif.Proofs.ModfileFmtDir6
+import ModVerif.Proofs.ModfileFmtWork4
 import ModVerif.Proofs.ModfileFmtQuoteUnquote
 namespace ModVerif.Props.C02
 open ModVerif ModVerif.Modfile
@@ -294,6 +295,24 @@ theorem format_preserves_directives_partial (name x : Bytes) (fix : Option Fixer
     (hfix : FixOK fix) (hne : FixNE fix) (hret : fix ≠ none → f.retract = []) :
     ∃ f', parseToFile name (format f.syn) fix true = .ok f' ∧ values f' = values f :=
   format_preserves_directives_noeol name x fix f h hno hwf hfix hne hret
+
+open Proofs.ModfileFmtDir Proofs.ModfileFmtWork Proofs.ModfileFmtMain in
+/-- ★ `format_preserves_directives_partial` for go.work (`ParseWork`): the same statement — inputs without
+    end-of-line comments, well-formed file (every `use` and `replace` path non-empty and not a lone
+    bracket/comma, replace versions valid when present), no fixer or a fixer idempotent on its image that never
+    returns the empty string; values = go / toolchain / godebug / use paths / replace pairs. -/
+theorem format_preserves_directives_work_partial (name x : Bytes) (fix : Option Fixer) (f : WorkFile)
+    (h : parseWork name x fix = .ok f) (hno : eolComments x = []) (hwf : WorkWellFormed f)
+    (hfix : FixOK fix) (hne : FixNE fix) :
+    ∃ f', parseWork name (format f.syn) fix = .ok f' ∧ workValues f' = workValues f :=
+  format_preserves_directives_work name x fix f h hno hwf hfix hne
+
+/-- non-vacuity for go.work -/
+example :
+    let x := B "go 1.21\ntoolchain go1.21.0\ngodebug a=b\nuse (\n\t\"./x y\"\n\t\"./z\"\n\t./w\n)\nreplace a.b/c v1.2 => \"../c\"\n"
+    (match parseWork (B "go.work") x none with
+     | .ok f => Proofs.ModfileFmtWork.workWellFormedB f
+     | .error _ => false) = true ∧ Proofs.ModfileFmtMain.eolComments x = [] := by decide +kernel
 
 /-- non-vacuity (no fixer): a file with every kind of directive, re-quoted arguments, non-canonical
     versions and a retraction is accepted as a well-formed file, without end-of-line comments -/
